@@ -7,7 +7,7 @@ from fractions import Fraction
 from . import refinterp as I
 from . import refnum as R
 from . import refparse as P
-from .common import strip_log_lines, REPO, WORK, Stats, Violation, hx, pmap, shim, finish, collect
+from .common import strip_log_lines, strip_sgr, REPO, WORK, Stats, Violation, hx, pmap, shim, finish, collect
 
 A20 = ['형', '형.', '형..', '항.', '항...', '하앙...', '핫....', '흣...', '흐읏.', '흡...', '흐읍...', '흑', '흑.', '흑..',
        '흑....', '형.♥', '항...♥', '형..?♥', '항...♥!', '형.♡']
@@ -303,16 +303,21 @@ def strip_banner(out):
     return strip_log_lines(out)
 
 
-def run_binary_case(sh, st, path, text, prog, inp, klass='run0', B=300):
+def run_binary_case(sh, st, path, text, prog, inp, klass='run0', B=300, color=False):
     """the real run::run at level 0 with a step budget vs the reference"""
     end, m, steps = I.run(prog, inp, max_steps=B, horizon=HORIZON)
     if end == 'unspecified':
         st.inc('cut')
         return
-    r = sh.run(path, 0, B, inp.encode('utf-8'))
+    if color:
+        r = sh.child('run', hx(path), 0, B, hx(inp.encode('utf-8')), 20, 'always')
+        r.out, r.err = strip_sgr(r.out), strip_sgr(r.err)
+        st.inc('runs_with_colour')
+    else:
+        r = sh.run(path, 0, B, inp.encode('utf-8'))
     st.inc('runs')
     st.add('ends', 'run:' + end)
-    case = {'kind': 'run', 'prog': text, 'stdin': inp, 'level': 0, 'budget': B}
+    case = {'kind': 'run', 'prog': text, 'stdin': inp, 'level': 0, 'budget': B, 'color': color}
     out = strip_banner(r.out)
     if out is None:
         st.violate(Violation('C01', 'exec', klass + ':banner', case, 'banner', repr(r.out[-200:]) + r.status))
@@ -381,6 +386,7 @@ def curated_task(name, text, inputs, binary):
         lockstep(sh, st, text, prog, inp, {}, 0, 3000, 'curated')
         if binary:
             run_binary_case(sh, st, path, text, prog, inp, 'run0:curated')
+            run_binary_case(sh, st, path, text, prog, inp, 'run0:curated:colour', color=True)
     st.inc('programs')
     return st
 
@@ -411,6 +417,7 @@ def list_task(texts):
         with open(path, 'w', encoding='utf-8') as f:
             f.write(text)
         run_binary_case(sh, st, path, text, prog, 'ab\nc', 'run0:labels')
+        run_binary_case(sh, st, path, text, prog, 'ab\nc', 'run0:labels:colour', color=True)
         st.inc('programs')
     return st
 
@@ -498,6 +505,7 @@ def run_c01(tier):
         'scope': {'onestep_cases': {k: len(v) for k, v in cases.items()},
                   'program_alphabet': alpha, 'program_max_len': n, 'programs': st.n.get('programs', 0),
                   'lockstep_traces': st.n.get('traces', 0), 'binary_runs': st.n.get('runs', 0),
+                  'binary_runs_with_colour_always': st.n.get('runs_with_colour', 0),
                   'label_pair_programs': len(labs),
                   'size_ladder': {'onestep_cases': len(sc), 'label_count_products': len(lsc), 'programs': len(sp),
                                   'step_bound': 3000, 'sizes': scale.LADDER if tier == 'quick' else scale.LADDER_LONG}, 'curated_programs': [c[0] for c in cur], 'curated_inputs': len(cin),
@@ -521,7 +529,7 @@ def replay(case):
         path = os.path.join(WORK, 'replay-%d.hyeong' % os.getpid())
         with open(path, 'w', encoding='utf-8') as f:
             f.write(case['prog'])
-        run_binary_case(sh, st, path, case['prog'], prog, case['stdin'], B=case.get('budget', 300))
+        run_binary_case(sh, st, path, case['prog'], prog, case['stdin'], B=case.get('budget', 300), color=case.get('color', False))
     if st.violations:
         return st.violations[0].expected, st.violations[0].observed
     return 'agree', 'agree'
